@@ -448,3 +448,6 @@ def run(ctx, rep) -> None:
     # the error pauses (and every other interruptible sleep of the framework) are aiotime.sleep: the real coroutine against Kits.tla
     from vf import kits
     kits.stage(ctx, rep, 'the error pause (aiotime.sleep)')
+    # posting Kubernetes events is auxiliary: a refused request loses that event and nothing else, the poster goes on (Posting.tla)
+    from vf import posting
+    posting.stage(ctx, rep)
